@@ -109,6 +109,15 @@ def answer (toks : List String) : String :=
     | some st =>
       s!"{showBoolMat (toMat st.A N N)}|{showPairs (edgeList N A)}|{(edgeList N A).length}|{showDone st.i iters.toNat!}"
   | ["rnd32", xs] => showInts ((ints xs).map rnd32)
+  | ["rnd32ovf", xs] =>
+    -- units of 2^-149: largest finite binary32 number = (2^24-1)·2^253
+    showBools ((ints xs).map fun (d : Int) => decide ((16777215 * 2 ^ 253 : Int) < ((rnd32 d).natAbs : Int)))
+  | ["rnd64", xs] => showRats ((rats xs).map rnd64)
+  | ["rnd32q", xs] =>
+    -- binary32 rounding of arbitrary rationals: `rndQ 24` in units of `2^-149`, sign restored
+    showRats ((rats xs).map fun (x : Rat) =>
+      let u : Rat := ((2 ^ 149 : Nat) : Rat)
+      if x < 0 then -((rndQ 24 (-x * u) : Nat) : Rat) / u else ((rndQ 24 (x * u) : Nat) : Rat) / u)
   | ["drawD", ks, e] =>
     showInts ((nats ks).map fun (k : Nat) =>
       Pyunicorn.Generated.StructC17.geoDrawR rnd64 ((k : Rat) / 9007199254740992) e.toInt!)
@@ -121,6 +130,11 @@ def answer (toks : List String) : String :=
     if crossAdmissible (ofMat (boolMat c)) (pairs links) then "1" else "0"
   | ["simplify", nn, es] =>
     showBoolMat (toMat (simplified (pairs es)) nn.toNat! nn.toNat!)
+  | ["ercall", hp, hm] =>
+    match erdosRenyiCall (hp == "1") (hm == "1") with
+    | none => "raise:ValueError"
+    | some .byProbability => "p"
+    | some .byLinkCount => "m"
   | ["edges", nn, es] =>
     match fromEdges nn.toNat! (pairs es) with
     | none => "raise:ValueError"
